@@ -3,6 +3,8 @@ package main
 import (
 	"errors"
 	"io"
+	"runtime"
+	"time"
 )
 
 // Port is the scripted vedirect.IOPort. Reply k (a list of chunks) is queued by the k-th Write call;
@@ -16,8 +18,12 @@ type Port struct {
 	RF      map[int]bool
 	FF      map[int]bool
 	WS      map[int]bool // Write calls that accept only half of the bytes handed to them (n < len(b), nil error)
+	RDelay  map[int]int  // Read calls that take that many milliseconds (a slow device)
+	EOFData int          // the first EOFData Reads that drain the queue report io.EOF together with the data (legal for an io.Reader)
+	Yield   bool         // Write yields the processor before it looks at its argument (a blocking port)
 	NW      int
 	NR      int
+	NE      int // Reads that delivered nothing (end of data or an error)
 	NF      int
 	Written [][]byte
 	Events  []byte // 'W' per Write call, 'F' per Flush call, 'R' per Read call
@@ -45,6 +51,9 @@ func NewPort(init [][]byte, replies [][][]byte, wf, rf, ff []int) *Port {
 }
 
 func (p *Port) Write(b []byte) (int, error) {
+	if p.Yield {
+		runtime.Gosched()
+	}
 	k := p.NW
 	p.NW++
 	if p.NW > opBudget {
@@ -80,10 +89,15 @@ func (p *Port) Read(b []byte) (int, error) {
 		panic(budgetExceeded{})
 	}
 	p.Events = append(p.Events, 'R')
+	if d := p.RDelay[k]; d > 0 {
+		time.Sleep(time.Duration(d) * time.Millisecond)
+	}
 	if p.RF[k] {
+		p.NE++
 		return 0, errFault
 	}
 	if len(p.Queue) == 0 {
+		p.NE++
 		return 0, io.EOF
 	}
 	c := p.Queue[0]
@@ -92,6 +106,10 @@ func (p *Port) Read(b []byte) (int, error) {
 		p.Queue[0] = c[n:]
 	} else {
 		p.Queue = p.Queue[1:]
+	}
+	if len(p.Queue) == 0 && p.EOFData > 0 {
+		p.EOFData--
+		return n, io.EOF
 	}
 	return n, nil
 }
